@@ -128,8 +128,11 @@ Theorem C07_no_panic : forall q os,
 Proof. exact filter_no_panic. Qed.
 Print Assumptions C07_no_panic.
 
-(** The executable specification the oracle evaluates accepts what the model
-    does, for every input of the property's domain ... *)
+(** The executable specification the oracle evaluates ([spec_ok_*]: the defined
+    verdict or, for a query carrying an unknown attribute anywhere, an error; the
+    lazily defined list with reduced cards compared up to the VERSION slot of a
+    card without VERSION) accepts what the model does, for every input of the
+    domain in which the unchanged code does not panic ... *)
 Theorem C07_spec_ok_match : forall q o,
   spec_ok_match q o (obs_of_match (match_query q (Some o))) = true.
 Proof. exact spec_ok_match_model. Qed.
@@ -152,6 +155,116 @@ Theorem C07_agree_implies_spec_ok_filter : forall q os ob,
   model_agrees_filter q os ob = true -> spec_ok_filter q os ob = true.
 Proof. exact agree_implies_spec_ok_filter. Qed.
 Print Assumptions C07_agree_implies_spec_ok_filter.
+
+(** The verdict the oracle reports ([spec_verdict_*]: the specification, plus the
+    model's own behaviour where the unchanged code may panic - nil object, empty
+    card to reduce) is met by the unchanged code's model on EVERY input, ... *)
+Theorem C07_spec_verdict_match_model : forall q ao,
+  spec_verdict_match q ao (obs_of_match (match_query q ao)) = true.
+Proof. exact spec_verdict_match_model. Qed.
+Print Assumptions C07_spec_verdict_match_model.
+
+Theorem C07_spec_verdict_filter_model : forall q os,
+  spec_verdict_filter q os (obs_of_filter (filter_objs q os)) = true.
+Proof. exact spec_verdict_filter_model. Qed.
+Print Assumptions C07_spec_verdict_filter_model.
+
+(** ... follows from agreement with the model on every input, ... *)
+Theorem C07_agree_implies_spec_verdict_match : forall q ao ob,
+  model_agrees_match q ao ob = true -> spec_verdict_match q ao ob = true.
+Proof. exact agree_implies_spec_verdict_match. Qed.
+Print Assumptions C07_agree_implies_spec_verdict_match.
+
+Theorem C07_agree_implies_spec_verdict_filter : forall q os ob,
+  model_agrees_filter q os ob = true -> spec_verdict_filter q os ob = true.
+Proof. exact agree_implies_spec_verdict_filter. Qed.
+Print Assumptions C07_agree_implies_spec_verdict_filter.
+
+(** ... and is the specification alone inside the domain. *)
+Theorem C07_spec_verdict_filter_in_domain : forall q os ob,
+  in_domain_filter q os = true -> spec_verdict_filter q os ob = spec_ok_filter q os ob.
+Proof. exact spec_verdict_filter_in_domain. Qed.
+Print Assumptions C07_spec_verdict_filter_in_domain.
+
+(** "An unknown test or match type is reported as an error, never guessed": an
+    error is accepted for every query carrying an unknown test or match type
+    anywhere (reached by a lazy evaluation or not; object, nil object, any list), ... *)
+Theorem C07_unknown_error_accepted : forall q,
+  all_known_b q = false ->
+  (forall ao, spec_verdict_match (Some q) ao MErr = true) /\
+  (forall os, spec_verdict_filter (Some q) os FErr = true).
+Proof. exact unknown_error_accepted. Qed.
+Print Assumptions C07_unknown_error_accepted.
+
+(** ... for no other query, ... *)
+Theorem C07_known_error_rejected : forall q o os,
+  all_known_b q = true ->
+  spec_verdict_match (Some q) (Some o) MErr = false /\
+  (in_domain_filter (Some q) os = true -> spec_verdict_filter (Some q) os FErr = false).
+Proof. exact known_error_rejected. Qed.
+Print Assumptions C07_known_error_rejected.
+
+(** ... and a verdict is accepted iff it is the one the three-valued semantics
+    defines (computable without consulting an unknown value). *)
+Theorem C07_verdict_accepted_iff : forall q o b,
+  spec_verdict_match (Some q) (Some o) (MOk b) = true <-> rfc6352_query q (o_card o) = Some b.
+Proof. exact verdict_accepted_iff. Qed.
+Print Assumptions C07_verdict_accepted_iff.
+
+(** "Reduced to VERSION plus the requested properties": what the specification
+    accepts in place of [project r o] is the same path, entity tag and
+    modification time, every requested name the source binds bound to the same
+    fields, nothing else, and VERSION bound to the source's VERSION fields -
+    where a source without VERSION fields may also leave the key unbound. *)
+Theorem C07_project_accepted : forall r o p,
+  dr_whole r = false ->
+  (object_sim (project r o) p = true <->
+   o_path p = o_path o /\ o_etag p = o_etag o /\ o_mtime p = o_mtime o /\
+   forall k,
+     if String.eqb k version_key
+     then card_assoc k (o_card p) = Some (card_fields version_key (o_card o)) \/
+          (card_fields version_key (o_card o) = [] /\ card_assoc k (o_card p) = None)
+     else card_assoc k (o_card p) =
+          if existsb (String.eqb k) (dr_props r) then card_assoc k (o_card o) else None).
+Proof. exact object_sim_project. Qed.
+Print Assumptions C07_project_accepted.
+
+(** The comparison of reduced cards is equality of maps up to that VERSION slot. *)
+Theorem C07_card_sim_spec : forall a b,
+  card_sim a b = true <-> forall k, vnorm k (card_assoc k a) = vnorm k (card_assoc k b).
+Proof. exact card_sim_spec. Qed.
+Print Assumptions C07_card_sim_spec.
+
+(** Concrete instances: the behaviours of two property-preserving variants of
+    the code (eager validation of the query; no VERSION key for a card without
+    VERSION, no panic on an empty card) are accepted, the neighbouring wrong
+    ones (guessed verdict, VERSION dropped or invented, object lost, panic where
+    the model does not panic) are rejected. *)
+Theorem C07_relaxed_witnesses :
+  match_query (Some w_q_inner_unknown) None = Panic /\
+  spec_verdict_match (Some w_q_inner_unknown) None MErr = true /\
+  spec_verdict_match (Some w_q_inner_unknown) None MPanic = true /\
+  spec_verdict_match (Some w_q_inner_unknown) None (MOk false) = false /\
+  match_query (Some w_q_inner_unknown) (Some w_obj_nover) = Ok false /\
+  spec_verdict_match (Some w_q_inner_unknown) (Some w_obj_nover) MErr = true /\
+  spec_verdict_match (Some w_q_inner_unknown) (Some w_obj_nover) (MOk false) = true /\
+  spec_verdict_match (Some w_q_inner_unknown) (Some w_obj_nover) (MOk true) = false /\
+  spec_verdict_filter (Some w_q_fn_notdef_x) [w_obj_nover] (FOk [mkobj [("VERSION", []); ("FN", [fld "a"])]]) = true /\
+  spec_verdict_filter (Some w_q_fn_notdef_x) [w_obj_nover] (FOk [mkobj [("FN", [fld "a"])]]) = true /\
+  spec_verdict_filter (Some w_q_fn_notdef_x) [w_obj_nover] (FOk [mkobj [("VERSION", [fld "3.0"]); ("FN", [fld "a"])]]) = false /\
+  spec_verdict_filter (Some w_q_fn_notdef_x) [w_obj_nover] (FOk [mkobj []]) = false /\
+  spec_verdict_filter (Some w_q_fn_notdef_x) [w_obj] (FOk [mkobj [("VERSION", [fld "4.0"])]]) = true /\
+  spec_verdict_filter (Some w_q_fn_notdef_x) [w_obj] (FOk [mkobj []]) = false /\
+  spec_verdict_filter (Some w_q_fn_notdef_x) [w_obj] (FOk [mkobj [("VERSION", [])]]) = false /\
+  filter_objs (Some w_q_fn_notdef_x) [mkobj []] = Panic /\
+  spec_verdict_filter (Some w_q_fn_notdef_x) [mkobj []] FPanic = true /\
+  spec_verdict_filter (Some w_q_fn_notdef_x) [mkobj []] (FOk [mkobj []]) = true /\
+  spec_verdict_filter (Some w_q_fn_notdef_x) [mkobj []] (FOk [mkobj [("VERSION", [])]]) = true /\
+  spec_verdict_filter (Some w_q_fn_notdef_x) [mkobj []] (FOk []) = false /\
+  spec_verdict_filter (Some w_q_fn_notdef_x) [mkobj []] FErr = false /\
+  spec_verdict_filter (Some w_q_fn_notdef_x) [w_obj_nover] FPanic = false.
+Proof. exact relaxed_witnesses. Qed.
+Print Assumptions C07_relaxed_witnesses.
 
 (** The comparison of cards used by the oracle is equality of maps. *)
 Theorem C07_card_eqb_spec : forall a b,
